@@ -58,6 +58,10 @@ def features(case, vio):
     op, in_conc = failing_op(case, vio)
     if in_conc:
         feats.add("threads")
+    if spec.get("factory_dialects"):
+        feats.add("factory_dialects")
+    if any((d.get("date") or "").startswith("obj_") for d in spec.get("dialects", [])):
+        feats.add("strategy_objects")
     if spec.get("aux"):
         feats.add("same_name_other_module")
     if any(o["k"] == "conc" for o in case["ops"]):
